@@ -420,11 +420,29 @@ def optStrC13 : Option Str → PVal
   | Option.none => PVal.none
   | some p => .str p
 
-/-- the instance with every dependency restricted to the attributes the model describes -/
-def projDocC13 : PVal → PVal
+/-- the attributes of an `HTMLTextDocument` -/
+def docFieldNamesC13 : List String := ["_html", "_deps", "_deps_replace_pattern"]
+
+/-- an instance restricted to these attributes, in this order: the order in which `__init__` makes its assignments (the
+    order of `__dict__`) is not part of what the tie states -/
+def normDocC13 : PVal → PVal
+  | .obj c fs => .obj c (docFieldNamesC13.filterMap fun k => (fieldGet? k fs).map fun v => (k, v))
+  | v => v
+
+def projDocCoreC13 : PVal → PVal
   | .obj cls [("_html", t), ("_deps", .list ds), ("_deps_replace_pattern", ph)] =>
     .obj cls [("_html", t), ("_deps", .list (ds.map projDepC10b)), ("_deps_replace_pattern", ph)]
-  | v => v
+  | w => w
+
+/-- … and every dependency restricted to the attributes the model describes -/
+def projDocC13 (v : PVal) : PVal := projDocCoreC13 (normDocC13 v)
+
+theorem projDoc_mapC13 (x : PyM PVal) : projDocC13 <$> x = projDocCoreC13 <$> (normDocC13 <$> x) := by
+  cases x <;> rfl
+
+theorem normDoc_textDocObjC13 (cls : String) (html : Str) (deps : List PVal) (ph : PVal) :
+    normDocC13 (textDocObjC13 cls html deps ph) = textDocObjC13 cls html deps ph := by
+  rfl
 
 theorem projDep_embSDepC13 (rk : Nat) (d : SDep) : projDepC10b (embSDepC13 rk d) = embSDepC13 rk d := by
   simp [projDepC10b, embSDepC13, embDepObjC10b, depFieldNamesC10b, fieldGet?]
